@@ -22,6 +22,7 @@ pub fn install(hook: Option<Hook>) {
 /// A scheduling point: hands control to the installed hook, if any.
 #[inline]
 pub fn sched_point(site: &'static str) {
+    RAW_ACCESS.with(|c| c.set(false));
     let hook = HOOK.with(|c| c.borrow().clone());
     if let Some(hook) = hook {
         hook(site);
@@ -34,6 +35,28 @@ pub fn active() -> bool {
     HOOK.with(|c| c.borrow().is_some())
 }
 
+thread_local! {
+    /// Number of live `sync::Ref` guards (DashMap shard read locks) of the calling thread.
+    static SHARD_GUARDS: std::cell::Cell<usize> = const { std::cell::Cell::new(0) };
+    /// Set by a raw access to the inner DashMap (it may have left a shard guard behind that
+    /// this module cannot see); cleared at the next scheduling point (`vp_sched!`, the DashMap
+    /// point operations, the lock wrapper: by the rule of the harness none of them sits
+    /// inside the scope of a shard guard).
+    static RAW_ACCESS: std::cell::Cell<bool> = const { std::cell::Cell::new(false) };
+}
+
+/// A scheduling point in front of an atomic counter operation. Counter updates may sit
+/// inside the scope of a DashMap shard guard (`retain` closures, a live `Ref`); a task
+/// parked there would leave the others blocked in the kernel, out of the scheduler's
+/// sight. So the point is skipped while the thread holds a `sync::Ref` or has touched the
+/// inner map directly since its last explicit point.
+#[inline]
+fn auto_point(site: &'static str) {
+    if SHARD_GUARDS.with(std::cell::Cell::get) == 0 && !RAW_ACCESS.with(std::cell::Cell::get) {
+        sched_point(site);
+    }
+}
+
 /// Lock types whose acquire and release are scheduling points.
 ///
 /// Drop-in for the subset of `std::sync::RwLock` this crate uses. On a thread without a
@@ -43,7 +66,7 @@ pub fn active() -> bool {
 /// dropping a guard is a scheduling point (`rwlock.release`) taken after the lock has
 /// been released.
 pub mod sync {
-    use super::{active, sched_point};
+    use super::{RAW_ACCESS, SHARD_GUARDS, active, auto_point, sched_point};
     use std::ops::{Deref, DerefMut};
     use std::sync::{LockResult, PoisonError, TryLockError};
 
@@ -162,14 +185,17 @@ pub mod sync {
             Self(dashmap::DashMap::with_capacity(capacity))
         }
 
-        /// `dashmap::DashMap::get` behind a scheduling point.
-        pub fn get<Q>(&self, key: &Q) -> Option<dashmap::mapref::one::Ref<'_, K, V>>
+        /// `dashmap::DashMap::get` behind a scheduling point; the guard is counted while
+        /// it lives (see `auto_point`).
+        pub fn get<Q>(&self, key: &Q) -> Option<Ref<'_, K, V>>
         where
             K: std::borrow::Borrow<Q>,
             Q: std::hash::Hash + Eq + ?Sized,
         {
             sched_point("dashmap.get");
-            self.0.get(key)
+            let r = self.0.get(key)?;
+            SHARD_GUARDS.with(|c| c.set(c.get() + 1));
+            Some(Ref(Some(r)))
         }
 
         /// `dashmap::DashMap::insert` behind a scheduling point.
@@ -202,7 +228,136 @@ pub mod sync {
     impl<K: Eq + std::hash::Hash, V> Deref for DashMap<K, V> {
         type Target = dashmap::DashMap<K, V>;
         fn deref(&self) -> &Self::Target {
+            RAW_ACCESS.with(|c| c.set(true));
             &self.0
         }
     }
+
+    /// Guard returned by [`DashMap::get`]: `dashmap::mapref::one::Ref` plus the count of
+    /// live shard guards of the thread.
+    #[derive(Debug)]
+    pub struct Ref<'a, K: Eq + std::hash::Hash, V>(Option<dashmap::mapref::one::Ref<'a, K, V>>);
+
+    impl<K: Eq + std::hash::Hash, V> Ref<'_, K, V> {
+        #[allow(clippy::expect_used)]
+        fn inner(&self) -> &dashmap::mapref::one::Ref<'_, K, V> {
+            self.0.as_ref().expect("guard is live until dropped")
+        }
+        /// Key of the entry.
+        pub fn key(&self) -> &K {
+            self.inner().key()
+        }
+        /// Value of the entry.
+        pub fn value(&self) -> &V {
+            self.inner().value()
+        }
+        /// Key and value of the entry.
+        pub fn pair(&self) -> (&K, &V) {
+            self.inner().pair()
+        }
+    }
+
+    impl<K: Eq + std::hash::Hash, V> Deref for Ref<'_, K, V> {
+        type Target = V;
+        fn deref(&self) -> &V {
+            self.inner().value()
+        }
+    }
+
+    impl<K: Eq + std::hash::Hash, V> Drop for Ref<'_, K, V> {
+        fn drop(&mut self) {
+            drop(self.0.take());
+            SHARD_GUARDS.with(|c| c.set(c.get().saturating_sub(1)));
+        }
+    }
+
+    macro_rules! sched_atomic {
+        ($name:ident, $int:ty) => {
+            /// Drop-in for the std atomic of the same name: the operations the caches use
+            /// on their books are scheduling points (see `auto_point`); everything else
+            /// reaches the inner atomic through `Deref`.
+            #[derive(Debug, Default)]
+            pub struct $name(std::sync::atomic::$name);
+
+            impl $name {
+                /// New atomic.
+                pub const fn new(v: $int) -> Self {
+                    Self(std::sync::atomic::$name::new(v))
+                }
+                /// `load` behind a scheduling point.
+                pub fn load(&self, o: Ordering) -> $int {
+                    auto_point("atomic.load");
+                    self.0.load(o)
+                }
+                /// `store` behind a scheduling point.
+                pub fn store(&self, v: $int, o: Ordering) {
+                    auto_point("atomic.store");
+                    self.0.store(v, o);
+                }
+                /// `swap` behind a scheduling point.
+                pub fn swap(&self, v: $int, o: Ordering) -> $int {
+                    auto_point("atomic.swap");
+                    self.0.swap(v, o)
+                }
+                /// `fetch_add` behind a scheduling point.
+                pub fn fetch_add(&self, v: $int, o: Ordering) -> $int {
+                    auto_point("atomic.fetch_add");
+                    self.0.fetch_add(v, o)
+                }
+                /// `fetch_sub` behind a scheduling point.
+                pub fn fetch_sub(&self, v: $int, o: Ordering) -> $int {
+                    auto_point("atomic.fetch_sub");
+                    self.0.fetch_sub(v, o)
+                }
+                /// `fetch_max` behind a scheduling point.
+                pub fn fetch_max(&self, v: $int, o: Ordering) -> $int {
+                    auto_point("atomic.fetch_max");
+                    self.0.fetch_max(v, o)
+                }
+                /// `fetch_min` behind a scheduling point.
+                pub fn fetch_min(&self, v: $int, o: Ordering) -> $int {
+                    auto_point("atomic.fetch_min");
+                    self.0.fetch_min(v, o)
+                }
+                /// `compare_exchange` behind a scheduling point.
+                ///
+                /// # Errors
+                ///
+                /// As the std operation: the current value if it differs from `current`.
+                pub fn compare_exchange(&self, current: $int, new: $int, s: Ordering, f: Ordering) -> Result<$int, $int> {
+                    auto_point("atomic.compare_exchange");
+                    self.0.compare_exchange(current, new, s, f)
+                }
+                /// `compare_exchange_weak` behind a scheduling point (never fails spuriously
+                /// here: the strong operation is used so that a schedule replays).
+                ///
+                /// # Errors
+                ///
+                /// As the std operation: the current value if it differs from `current`.
+                pub fn compare_exchange_weak(&self, current: $int, new: $int, s: Ordering, f: Ordering) -> Result<$int, $int> {
+                    auto_point("atomic.compare_exchange");
+                    self.0.compare_exchange(current, new, s, f)
+                }
+                /// `fetch_update` behind a scheduling point (one atomic step, as in std).
+                ///
+                /// # Errors
+                ///
+                /// As the std operation: the current value if `f` returns `None`.
+                pub fn fetch_update(&self, s: Ordering, l: Ordering, f: impl FnMut($int) -> Option<$int>) -> Result<$int, $int> {
+                    auto_point("atomic.fetch_update");
+                    self.0.fetch_update(s, l, f)
+                }
+            }
+
+            impl Deref for $name {
+                type Target = std::sync::atomic::$name;
+                fn deref(&self) -> &Self::Target {
+                    &self.0
+                }
+            }
+        };
+    }
+    use std::sync::atomic::Ordering;
+    sched_atomic!(AtomicUsize, usize);
+    sched_atomic!(AtomicU64, u64);
 }
